@@ -1,1 +1,5 @@
 #pragma once
+/* stand-in for <stdio.h> in the freestanding ILP32 build: formatted output of exec32.c (%s %d %u %ld %lu %zu %llu %02x %c) */
+#include <stddef.h>
+int printf(const char* fmt, ...);
+int putchar(int c);
